@@ -19,8 +19,9 @@ EVID_DIR = os.path.join(VERIF_DIR, 'evidence')
 VENV_PY = '/venv/bin/python'
 
 
-def units_for(reg, pid):
-    fns = [k for k, c in reg.contracts.items() if pid in c.props and not c.trusted]
+def units_for(reg, pid, tier='thorough'):
+    fns = [k for k, c in reg.contracts.items() if pid in c.props and not c.trusted
+           and (tier == 'thorough' or getattr(c, 'tier', 'quick') == 'quick')]
     lemmas = [n for n, a in reg.axioms.items() if a.kind == 'lemma' and pid in a.props]
     return sorted(fns), sorted(lemmas)
 
@@ -70,7 +71,7 @@ def load_baseline(pid):
 
 def write_baseline(pid, results):
     os.makedirs(os.path.join(VERIF_DIR, 'baseline'), exist_ok=True)
-    names = sorted({r['name'] for r in results if r['status'] == 'proved' and not r.get('kf')})
+    names = sorted({r['name'] for r in results if r['status'] == 'proved' and not r.get('kf')} | load_baseline(pid))
     with open(os.path.join(VERIF_DIR, 'baseline', f'{pid}.json'), 'w') as f:
         json.dump({'property': pid, 'proved': names}, f, indent=0)
 
@@ -91,7 +92,7 @@ def run_check(pid, tier, seed, jobs, only=None, verbose=False, record_baseline=F
     from . import replay as replay_mod
     t0 = time.time()
     reg = load_registry()
-    fns, lemmas = units_for(reg, pid)
+    fns, lemmas = units_for(reg, pid, tier if not only else 'thorough')
     if only:
         fns = [f for f in fns if only in f]
         lemmas = [l for l in lemmas if only in l]
